@@ -1,5 +1,5 @@
 """C20 — reload requests are serialised, answered, and never leave dae wedged."""
-import json, os
+import glob, json, os, re
 from verifkit import read_lines, REPO, VERIF
 
 REQUIRED = [
@@ -32,6 +32,7 @@ REQUIRED = [
     "DaeVerif.C20.Props.muting_always_lifted",
     "DaeVerif.C20.Props.mute_window_starts_at_last_end",
     "DaeVerif.C20.Props.no_foreign_answer_in_progress",
+    "DaeVerif.C20.Props.ready_wait_bounded",
     "DaeVerif.C20.Props.answered_full",
     "DaeVerif.C20.Props.answer_written_before_release",
 ]
@@ -55,6 +56,102 @@ def ret_admits(im, mo):
                 continue
         return False
     return True
+
+
+UNITS = {"time.Nanosecond": 1, "time.Microsecond": 10**3, "time.Millisecond": 10**6, "time.Second": 10**9,
+         "time.Minute": 60 * 10**9, "time.Hour": 3600 * 10**9}
+
+
+def go_consts(paths):
+    """name -> expression text of the (simple) constant declarations in the given Go files."""
+    table = {}
+    for path in paths:
+        if not os.path.exists(path):
+            continue
+        src = open(path, encoding="utf-8", errors="replace").read()
+        src = re.sub(r"//[^\n]*", "", src)
+        for m in re.finditer(r"^const\s+(\w+)(?:\s+[\w.]+)?\s*=\s*([^\n]+)$", src, re.M):
+            table[m.group(1)] = m.group(2).strip()
+        for blk in re.finditer(r"^const\s*\((.*?)^\)", src, re.M | re.S):
+            for m in re.finditer(r"^\s*(\w+)(?:\s+[\w.]+)?\s*=\s*([^\n]+)$", blk.group(1), re.M):
+                table[m.group(1)] = m.group(2).strip()
+    return table
+
+
+def eval_duration(name, table, depth=0):
+    """value in ns of a duration constant built from integers, time.* units, + - * and other constants."""
+    if depth > 8 or name not in table:
+        raise ValueError("cannot resolve constant " + name)
+    expr = table[name]
+    for u, v in UNITS.items():
+        expr = expr.replace(u, str(v))
+    def sub(m):
+        w = m.group(0)
+        return w if w.isdigit() else str(eval_duration(w, table, depth + 1))
+    expr = re.sub(r"[A-Za-z_][A-Za-z_0-9]*", sub, expr)
+    if not re.fullmatch(r"[0-9+\-*/() ]+", expr):
+        raise ValueError("unsupported constant expression for %s: %s" % (name, table[name]))
+    return int(eval(expr.replace("/", "//"), {"__builtins__": {}}))
+
+
+def regenerate_consts(ctx):
+    """lean/DaeVerif/C20/Gen.lean: the time constants of the tree under test.  The theorems do not
+    depend on their values, so a retune is followed (the proofs are simply rebuilt), not alarmed."""
+    cmd = go_consts([os.path.join(REPO, "cmd", "run.go")])
+    dia = go_consts(sorted(glob.glob(os.path.join(REPO, "component", "outbound", "dialer", "*.go"))))
+    try:
+        vals = [("totalSwitchBudgetNs", "reloadTotalSwitchBudget", eval_duration("reloadTotalSwitchBudget", cmd)),
+                ("quiesceNs", "reloadFailureQuiesce", eval_duration("reloadFailureQuiesce", dia)),
+                ("readyTimeoutNs", "reloadReadyTimeout", eval_duration("reloadReadyTimeout", cmd)),
+                ("prepareTimeoutNs", "reloadPrepareTimeout", eval_duration("reloadPrepareTimeout", cmd))]
+    except Exception as e:  # noqa
+        ctx.say("TRANSLATOR-FAILED c20 constants:", e)
+        ctx.proof_failures.append("cannot regenerate lean/DaeVerif/C20/Gen.lean from the source: %s" % e)
+        return
+    if any(v < 0 for _, _, v in vals):
+        ctx.proof_failures.append("negative duration constant in the source: %r" % (vals,))
+        return
+    txt = ("/-! GENERATED by checks/c20.py from cmd/run.go and component/outbound/dialer/*.go of the tree under test; do not edit. -/\n"
+           "namespace DaeVerif.C20.Gen\n")
+    for lean, go, v in vals:
+        txt += "/-- %s (ns) -/\ndef %s : Nat := %d\n" % (go, lean, v)
+    txt += "end DaeVerif.C20.Gen\n"
+    path = os.path.join(VERIF, "lean", "DaeVerif", "C20", "Gen.lean")
+    if not os.path.exists(path) or open(path).read() != txt:
+        open(path, "w").write(txt)
+        ctx.say("note: time constants of the tree under test differ from the last run; lean/DaeVerif/C20/Gen.lean rewritten, proofs will be rebuilt")
+    ctx.cov["generated_constants"] = {go: v for _, go, v in vals}
+    for lean, go, v in vals:
+        if go in ("reloadReadyTimeout", "reloadPrepareTimeout") and v <= 0:
+            # ready_wait_bounded needs a positive time-out: without one a Serve goroutine that never
+            # reports leaves the main loop in the wait for ever (every signal swallowed as busy)
+            ctx.report(f"{go} = {v} ns in the source: the hand-off's wait has no time-out any more "
+                       f"(theorem ready_wait_bounded needs 0 < timeout; with 0 the real waitReloadReadyOrSignal arms no timer)",
+                       {"constant": go, "value_ns": v, "replay": "rwait timeout=0 report=none ok=1 term=none nsig=0 -> at=never"})
+
+
+def write_shim(ctx):
+    """The harness reaches `takeAbortMarker` and `reloadRequest.abortConnections` (introduced by 612b092)
+    through this generated file, so that a tree without them still builds and is REPORTED (the marker
+    then survives a refusal: `ab=1` against the model's `ab=0`) instead of failing the harness build."""
+    src = open(os.path.join(REPO, "cmd", "run.go"), encoding="utf-8", errors="replace").read()
+    has_fn = re.search(r"^func takeAbortMarker\(\) bool", src, re.M) is not None
+    m = re.search(r"type reloadRequest struct \{(.*?)\n\}", src, re.S)
+    has_field = bool(m and re.search(r"^\s*abortConnections\s+bool", m.group(1), re.M))
+    body = ["package cmd", "", "// generated by checks/c20.py from cmd/run.go of the tree under test", "", 'import "time"', ""]
+    body += ["func c20TakeAbort() bool { return %s }" % ("takeAbortMarker()" if has_fn else "false"), ""]
+    if has_field:
+        body += ["func c20MkRequest(suspend, abort bool) reloadRequest {",
+                 "\treturn reloadRequest{isSuspend: suspend, requestedAt: time.Now(), abortConnections: abort}", "}", "",
+                 "func c20RequestAbort(r reloadRequest) bool { return r.abortConnections }"]
+    else:
+        body += ["func c20MkRequest(suspend, abort bool) reloadRequest {",
+                 "\t_ = abort", "\treturn reloadRequest{isSuspend: suspend, requestedAt: time.Now()}", "}", "",
+                 "func c20RequestAbort(r reloadRequest) bool { return false }"]
+    path = os.path.join(ctx.out, "c20_shim_test.go")
+    open(path, "w").write("\n".join(body) + "\n")
+    ctx.cov["shim"] = {"takeAbortMarker": has_fn, "reloadRequest.abortConnections": has_field}
+    return path
 
 
 def schedule_upto(ops, lineno):
@@ -84,12 +181,13 @@ def run(ctx):
         "after the suppression counter returns to 0 the dialer keeps reports muted for a further fixed window (reloadFailureQuiesce); only the counter is modelled",
         "overlay accessor harness/overlay/component/outbound/dialer/c20_access.go reads the real counter",
     ]
+    regenerate_consts(ctx)
     ctx.prove(["DaeVerif.C20.Props"], ["DaeVerif.C20.Props"], ["DaeVerif/C20/*.lean"], extra_targets=["c20drv"])
     ctx.required_theorems(REQUIRED)
 
     access = os.path.join(VERIF, "harness", "overlay", "component", "outbound", "dialer", "c20_access.go")
     access2 = os.path.join(VERIF, "harness", "overlay", "control", "c20_access.go")
-    binp = ctx.go_test_build("cmd", ["cmd/c20_test.go", "cmd/c20_paths_test.go", "cmd/c20_retire_test.go"], "c20",
+    binp = ctx.go_test_build("cmd", ["cmd/c20_test.go", "cmd/c20_paths_test.go", "cmd/c20_retire_test.go", write_shim(ctx)], "c20",
                              extra_overlay={os.path.join(REPO, "component", "outbound", "dialer", "zz_verif_c20_access.go"): access,
                                             os.path.join(REPO, "control", "zz_verif_c20_access.go"): access2})
     if not binp:
@@ -187,6 +285,28 @@ def run(ctx):
     ctx.cov["input_distribution"] = {k: v for k, v in c.items() if not k.startswith(("worker_path:", "handler_path:"))}
     ctx.cov["worker_paths_replayed"] = {k[len("worker_path:"):]: v for k, v in c.items() if k.startswith("worker_path:")}
     ctx.cov["handler_paths_replayed"] = {k[len("handler_path:"):]: v for k, v in c.items() if k.startswith("handler_path:")}
+    if not os.environ.get("VERIF_C20_OPS"):
+        floors = {"signal_at:queued": 50, "signal_at:handoff": 20, "signal_at:retiring": 15, "signal_at:releasing": 8,
+                  "signal_at:worker:startret": 3, "signal_at:worker:notify": 3, "op:swallow": 40, "op:gwrite": 5,
+                  "op:mark": 50, "op:spur": 50, "op:cli": 20, "finishsucc_with_worker_busy": 20, "second_request_accepted": 100,
+                  "settled_sequences": 400, "ret_op:retire": 400, "ret_op:drain": 300, "ret_op:rwait": 100,
+                  "retire_with_successor": 150, "systematic_mfirst_sequences": 50}
+        low = {k: (c.get(k, 0), v) for k, v in floors.items() if c.get(k, 0) < v}
+        npaths_w = len([k for k in c if k.startswith("worker_path:")])
+        npaths_h = len([k for k in c if k.startswith("handler_path:")])
+        if npaths_w < c.get("extracted_paths:worker", 0):
+            low["worker paths replayed"] = (npaths_w, c.get("extracted_paths:worker", 0))
+        if npaths_h < c.get("extracted_paths:handler", 0) - 1:
+            low["handler paths replayed"] = (npaths_h, c.get("extracted_paths:handler", 0) - 1)
+        ctx.cov["generator_floors"] = {"floors": floors, "below": {k: list(v) for k, v in low.items()}}
+        if low and not ctx.violations:
+            ctx.say("GENERATOR-BELOW-FLOOR (count, floor):", low)
+            say = ctx.say
+            ctx.say = lambda *a: None if str(a[0]).startswith("OK ") else say(*a)  # evidence is written, but this run is not OK
+            ctx.finish(rule="generator floors not reached", evaluations=n_eval, distinct=len(distinct))
+            ctx.say = say
+            ctx.say("CHECK-INCOMPLETE property=C20: the generators did not reach their floors")
+            return 2
     if c.get("DESYNC"):
         ctx.say("note: %d sequence(s) lost step with the real goroutines (reported as mismatches above)" % c["DESYNC"])
     ctx.assumptions = [
